@@ -738,6 +738,12 @@ func htmlAll(c *corpus, r *rng, tier string, scale int) *inputSet {
 	exhaustive(htmlAlphabet, depth, func(x string) { s.add("exhaustive", x) })
 	wrappedVectors(func(x string) { s.add("wrapped-vectors-with-tails", x) })
 	doubleTerminators(func(x string) { s.add("double-terminators", x) })
+	for _, k := range []int{40, 257, 1100} {
+		z := strings.Repeat("\x00", k)
+		for _, v := range []string{"<img src=x on%serror=alert(1)>", "x on%sfocus=alert(1) autofocus", "x' o%snclick=alert(1)", "<sc%sript>", "<a hr%sef=javascript:alert(1)>", "<a st%syle=x>", "<ifr%same>", "x\" xml%sns=x"} {
+			s.add("many-nuls-in-name", fmt.Sprintf(v, z))
+		}
+	}
 	everyByteIn(htmlByteForms, func(x string) { s.add("every-byte-in-position", x) })
 	for _, w := range nearMisses(c.logic) {
 		for _, f := range []string{"<%s>", "<%s ", "<%s/", "<a %s=x>", "<a href=%s:x>", "<a href='%s:x'>", "<a href=\" %sscript:x\">", "<!%s x>", "<?%s x>", "<![%s", "<a on%s=x>", "<a %s:href=x>", "<!--[%s x]>", "%s"} {
